@@ -598,6 +598,23 @@ fn wrap_cases(ctx: &mut Ctx) {
     }
 }
 
+/// the part of C13 that is about a misbehaving device (run under C07 as well): every configuration-space access a
+/// driver makes with device-chosen offsets / lengths stays inside the window (9p tag length, net / blk / vsock /
+/// console fields on windows of every length), on both transports
+pub fn run_device_chosen(ctx: &mut Ctx) {
+    ctx.tr.scenario("c13-bounds-mmio");
+    let few: Vec<(u64, u64)> = vec![(1, 1), (2, 2), (4, 4), (6, 1), (8, 4), (8, 8), (12, 4), (16, 1)];
+    for (i, len) in [0u64, 1, 2, 3, 4, 5, 6, 7, 8, 9, 12, 16, 17, 255, 256].iter().enumerate() {
+        bounds_window(ctx, Geo { tk: 1, present: true, len: *len, delta: if i % 2 == 0 { 0 } else { 4 } }, i % 5 == 4, &few);
+    }
+    ctx.tr.scenario("c13-bounds-pci");
+    for (i, len) in [4u64, 5, 6, 7, 8, 9, 11, 12, 16, 17].iter().enumerate() {
+        bounds_window(ctx, Geo { tk: 2, present: true, len: *len, delta: if i % 2 == 0 { 0 } else { 4 } }, i % 5 == 3, &few);
+    }
+    ctx.tr.scenario("c13-users");
+    rc_scenarios(ctx, true);
+}
+
 pub fn run(ctx: &mut Ctx) {
     // ---- bounds and alignment of single accesses
     ctx.tr.scenario("c13-bounds-mmio");
